@@ -61,6 +61,14 @@ void h_lemma_ip_in_box (void)
 void h_lemma_entryexit_in_box (void)
 {
     SETUP ();
+    /* Line3's invariant: the direction is a unit vector (to rounding).  With dir == 0, or a direction so short that every quotient is
+     * refused by the overflow guards, no face is ever crossed and entry / exit stay unset although true is returned. */
+    { float n2 = r.dir.x * r.dir.x + r.dir.y * r.dir.y + r.dir.z * r.dir.z; VF_ASSUME (n2 >= 0.99f && n2 <= 1.01f); }
+#ifdef C14_SPAN
+    /* and a box / origin whose coordinate differences cannot overflow */
+    VF_ASSUME (fabsf (b.min.x) <= 1e37f && fabsf (b.min.y) <= 1e37f && fabsf (b.min.z) <= 1e37f && fabsf (b.max.x) <= 1e37f && fabsf (b.max.y) <= 1e37f && fabsf (b.max.z) <= 1e37f
+               && fabsf (r.pos.x) <= 1e37f && fabsf (r.pos.y) <= 1e37f && fabsf (r.pos.z) <= 1e37f);
+#endif
     V3 en = { 0, 0, 0 }, ex = { 0, 0, 0 };
     _Bool res = F_entryexit (&r, &b, &en, &ex);
     VF_ASSERT (!res || (INBOX (b, en) && INBOX (b, ex)), "when findEntryAndExitPoints is true, entry and exit lie in the closed box");
